@@ -24,8 +24,8 @@ ANCHOR_FILES = ['proxy/proxy.py', 'proxy/core/listener/pool.py', 'proxy/core/lis
 RULE = ('cases = configurations (--hostname/--hostnames over 127.0.0.1, 127.0.0.2, ::1 incl. duplicates; --port fixed/0; '
         '--ports with 0..3 entries fixed/0, zeros only with a single address; --unix-socket-path; --port-file/--pid-file; '
         'threaded / threadless-local / threadless-remote), each started and stopped LIVE on loopback; plus start-ups that must '
-        'fail (port already in use, stale unix socket path) and stale pid/port files.  quick = the corpus witnesses + 15 fixed '
-        'configurations + 3 drawn from the grid; thorough = the whole grid (588) + failures.  A case is non-trivial when the proxy '
+        'fail (port already in use, stale unix socket path) and stale pid/port files.  quick = the corpus witnesses + 12 fixed '
+        'configurations + 2 drawn from the grid; thorough = the whole grid (588) + failures.  A case is non-trivial when the proxy '
         'started, at least one endpoint was listening and every endpoint was probed with a real connection before and after '
         'shutdown; distinct = distinct configurations')
 TRUSTED = ['the oracle hypotheses os_spec (bind on a fixed port reports that port, bind on 0 a non-zero port; a Python set iterates '
@@ -703,10 +703,8 @@ def _generate(rng, tier):
     fixed = [
         mk('grid', port=0, port_file=False, pid_file=False, mode='local'),
         mk('grid', port=0, ports=[0, 0], mode='remote'),
-        mk('grid', hostname=V6, port='F0', ports=['F1', 'F2'], mode='threaded'),
         mk('grid', hostname=V6, hostnames=[V4A], port='F0', ports=['F1'], mode='local'),
         mk('grid', hostname=V4A, hostnames=[V4B, V4A], port='F0', port_file=True, pid_file=False, mode='remote'),
-        mk('grid', unix=True, mode='local'),
         mk('grid', unix=True, ports=[0, 'F0'], mode='threaded'),
         mk('grid', hostname=V4A, hostnames=[V4A], port=0, ports=['F0', 0, 'F1'], port_file=False, pid_file=True, mode='local'),
         mk('grid', hostname=V4A, hostnames=[V4B], unix=True, ports=['F0', 'F1'], mode='remote'),
@@ -714,7 +712,7 @@ def _generate(rng, tier):
     ]
     fl = failures()
     g = grid()
-    return fixed + [fl[0], fl[2], fl[4], fl[5], fl[6]] + [g[rng.randrange(len(g))] for _ in range(3)]
+    return fixed + [fl[2], fl[4], fl[5], fl[6]] + [g[rng.randrange(len(g))] for _ in range(2)]
 
 
 def shrink(case, fails):
